@@ -34,6 +34,8 @@ pub enum Step {
     HFill { slot: usize, eighths: u8 },
     HWrite { slot: usize, len: usize },
     HWriteAll { slot: usize, len: usize },
+    /// write_all of `payload(tag, len)`: the same bytes every time (C15 cycles).
+    HWriteTag { slot: usize, len: usize, tag: u64 },
     HSeek { slot: usize, from: SeekFrom },
     HSetLen { slot: usize, n: u64 },
     HFlush { slot: usize },
@@ -59,7 +61,7 @@ impl Step {
             Step::HReadExact { .. } => "read_exact",
             Step::HFill { .. } => "fill_buf",
             Step::HWrite { .. } => "write",
-            Step::HWriteAll { .. } => "write_all",
+            Step::HWriteAll { .. } | Step::HWriteTag { .. } => "write_all",
             Step::HSeek { .. } => "seek",
             Step::HSetLen { .. } => "set_len",
             Step::HFlush { .. } => "stream_flush",
@@ -451,7 +453,32 @@ impl Session {
         }
     }
 
+    /// While a handle holds unflushed writes, the length a *query* reports for that
+    /// stream is whatever has been written back so far - not predictable, and outside
+    /// every property; make the expectation a wildcard there.
+    fn relax_dirty_lens(&self, exp: &Expect, obs: &Result<Out, io::Error>) -> Expect {
+        let dirty: Vec<Vec<Vec<u16>>> = self.hm.iter().flatten().filter(|h| h.dirty).map(|h| h.names.iter().map(|n| order::fold(n)).collect()).collect();
+        if dirty.is_empty() {
+            return exp.clone();
+        }
+        let patch = |e: &EntryView, o: Option<&EntryView>| -> EntryView {
+            let mut e = e.clone();
+            if e.kind == Kind::Stream && dirty.contains(&fold_path(&e.path)) {
+                if let Some(o) = o {
+                    e.len = o.len;
+                }
+            }
+            e
+        };
+        match (exp, obs) {
+            (Expect::Ok(Out::Entry(e)), Ok(Out::Entry(o))) => Expect::Ok(Out::Entry(patch(e, Some(o)))),
+            (Expect::Ok(Out::List(l)), Ok(Out::List(ol))) if l.len() == ol.len() => Expect::Ok(Out::List(l.iter().zip(ol.iter()).map(|(e, o)| patch(e, Some(o))).collect())),
+            _ => exp.clone(),
+        }
+    }
+
     fn adopt_and_compare(&mut self, exp: &Expect, obs: Result<Out, io::Error>) -> Result<(), (String, String, String)> {
+        let exp = &self.relax_dirty_lens(exp, &obs);
         match (exp, obs) {
             (Expect::Ok(e), Ok(o)) => match out_matches(e, &o) {
                 Ok(()) => {
@@ -496,7 +523,7 @@ impl Session {
 
     fn run_handle_step(&mut self, step: &Step) -> Result<(), (String, String, String)> {
         let slot = match step {
-            Step::HRead { slot, .. } | Step::HReadExact { slot, .. } | Step::HFill { slot, .. } | Step::HWrite { slot, .. } | Step::HWriteAll { slot, .. } | Step::HSeek { slot, .. } | Step::HSetLen { slot, .. } | Step::HFlush { slot } | Step::HPos { slot } | Step::HLen { slot } | Step::HReadToEnd { slot } | Step::HClose { slot } | Step::HDrop { slot } => *slot,
+            Step::HRead { slot, .. } | Step::HReadExact { slot, .. } | Step::HFill { slot, .. } | Step::HWrite { slot, .. } | Step::HWriteAll { slot, .. } | Step::HWriteTag { slot, .. } | Step::HSeek { slot, .. } | Step::HSetLen { slot, .. } | Step::HFlush { slot } | Step::HPos { slot } | Step::HLen { slot } | Step::HReadToEnd { slot } | Step::HClose { slot } | Step::HDrop { slot } => *slot,
             _ => unreachable!(),
         };
         if self.hm.get(slot).map(|h| h.is_none()).unwrap_or(true) {
@@ -578,11 +605,15 @@ impl Session {
                 }
                 Err(e) => mk("Ok(slice)".into(), format!("Err({:?}: {e})", e.kind()), "ok | err"),
             },
-            Step::HWrite { len, .. } | Step::HWriteAll { len, .. } => {
-                let j = self.write_counter;
-                self.write_counter += 1;
+            Step::HWrite { len, .. } | Step::HWriteAll { len, .. } | Step::HWriteTag { len, .. } => {
+                let j = if let Step::HWriteTag { tag, .. } = step {
+                    *tag
+                } else {
+                    self.write_counter += 1;
+                    self.write_counter - 1
+                };
                 let data = payload(j, *len);
-                let all = matches!(step, Step::HWriteAll { .. });
+                let all = !matches!(step, Step::HWrite { .. });
                 let r = if all { stream.write_all(&data).map(|_| *len) } else { stream.write(&data) };
                 match r {
                     Ok(k) => {
@@ -758,7 +789,7 @@ pub fn uuid_of(b: &[u8; 16]) -> uuid::Uuid {
 
 /// Executes one API-level op on a compound file over any backend.
 pub fn exec_api_on<F: Read + Write + Seek>(cf: &mut CompoundFile<F>, op: &Op) -> Result<Out, io::Error> {
-    let ticks_to_st = |t: u64| ns_to_st(model::unix_ns_from_ticks(t)).unwrap_or(UNIX_EPOCH);
+    let ticks_to_st = |ns: i128| ns_to_st(ns).unwrap_or(UNIX_EPOCH);
     Ok(match op {
         Op::CreateStorage(p) => {
             cf.create_storage(p)?;
